@@ -3,6 +3,7 @@ package c03
 import (
 	"fmt"
 	"sort"
+	"strconv"
 	"strings"
 
 	"ariga.io/atlas/sql/schema"
@@ -91,6 +92,41 @@ func normDefault(d string) string {
 	return "x:" + strings.ToLower(strings.Join(strings.Fields(d), ""))
 }
 
+// descDefault canonicalises a column default of a schema graph. An inspected graph holds string
+// defaults as quoted literals ('x') and the graph evaluated from HCL holds them bare (x) — Atlas's differ
+// and planner document treating the two alike — so a literal is described by its unquoted content;
+// numbers by value, booleans and blob literals in lower case; raw expressions by their text without
+// blanks / case / outer parentheses.
+func descDefault(e schema.Expr) string {
+	switch x := e.(type) {
+	case nil:
+		return "-"
+	case *schema.Literal:
+		v := strings.TrimSpace(x.V)
+		n := normDefault(v)
+		switch {
+		case strings.HasPrefix(n, "s:"):
+			return "v:" + n[2:]
+		case strings.EqualFold(v, "true") || strings.EqualFold(v, "false"):
+			return "v:" + strings.ToLower(v)
+		case len(v) > 2 && (v[0] == 'x' || v[0] == 'X') && v[1] == '\'':
+			return "x:" + strings.ToLower(v)
+		}
+		if f, err := strconv.ParseFloat(v, 64); err == nil {
+			return "v:" + strconv.FormatFloat(f, 'g', -1, 64)
+		}
+		return "v:" + v
+	case *schema.RawExpr:
+		n := normDefault(x.X)
+		if strings.HasPrefix(n, "s:") {
+			return "v:" + n[2:]
+		}
+		return "x:" + n[2:]
+	default:
+		return fmt.Sprintf("?%T", e)
+	}
+}
+
 func action(a schema.ReferenceOption) string {
 	if a == "" {
 		return string(schema.NoAction) // SQLite's documented default
@@ -129,16 +165,7 @@ func describe(s *schema.Schema) []string {
 					typ = "!" + err.Error()
 				}
 			}
-			d := "-"
-			switch x := c.Default.(type) {
-			case *schema.Literal:
-				d = normDefault(x.V)
-			case *schema.RawExpr:
-				d = normDefault(x.X)
-			case nil:
-			default:
-				d = fmt.Sprintf("?%T", x)
-			}
+			d := descDefault(c.Default)
 			line := fmt.Sprintf("col %s.%s type=%s null=%v dflt=%s", t.Name, c.Name, typ, null, d)
 			for _, a := range c.Attrs {
 				switch a := a.(type) {
